@@ -1,7 +1,7 @@
 (* C16/Run.v — S-expression front end of the cache model, extracted to OCaml.
    requests
      (kvs <catches 0|1> <dirsize> <max> (op ...))      contents are triples (id len mem)
-        op = (set (name) (id len mem) t) | (get (name) t) | (unload (name)) | (reopen max)
+        op = (set (name) (id len mem) t (popped names)) | (get (name) t (popped names)) | (unload (name)) | (reopen max)
         -> ((res state) ...) one per op, where
            res   = (set) | (val id) | (undef) | (err <code>) | (none)
            state = (mem (entries (name writing bytes fut) ...) (heap (t name) ...) (disk (name kind id) ...) max)
@@ -29,12 +29,23 @@ Definition exc_code (e : exc) : Z :=
 
 Definition sx_name (n : name) : sx := sx_zs n.
 
+Fixpoint names_of_sx (l : list sx) : option (list name) :=
+  match l with
+  | [] => Some []
+  | SL n :: r => match sx_get_zs n, names_of_sx r with Some a, Some b => Some (a :: b) | _, _ => None end
+  | _ => None
+  end.
+
 Definition op_of_sx (x : sx) : option (op cont) :=
   match x with
-  | SL [SS t; SL n; SL [SZ i; SZ l; SZ m]; SZ tm] =>
-      if is_tag "set" t then option_map (fun n' => OSet n' (i, l, m) tm) (sx_get_zs n) else None
-  | SL [SS t; SL n; SZ tm] =>
-      if is_tag "get" t then option_map (fun n' => OGet n' tm) (sx_get_zs n) else None
+  | SL [SS t; SL n; SL [SZ i; SZ l; SZ m]; SZ tm; SL ch] =>
+      if is_tag "set" t then
+        match sx_get_zs n, names_of_sx ch with Some n', Some ch' => Some (OSet n' (i, l, m) tm ch') | _, _ => None end
+      else None
+  | SL [SS t; SL n; SZ tm; SL ch] =>
+      if is_tag "get" t then
+        match sx_get_zs n, names_of_sx ch with Some n', Some ch' => Some (OGet n' tm ch') | _, _ => None end
+      else None
   | SL [SS t; SL n] =>
       if is_tag "unload" t then option_map (fun n' => OUnload n') (sx_get_zs n) else None
   | SL [SS t; SZ mx] =>
@@ -109,7 +120,7 @@ Fixpoint run_tbl (dirsize : Z) (s : tcache) (ops : list sx) : list sx :=
       match sx_get_zs n, rows_of_sx rows with
       | Some n', Some f =>
           if is_tag "set" t then
-            let '(s1, x) := tbl_set flen fmem dirsize s n' f t1 t2 in sx_tres x :: run_tbl dirsize s1 r
+            let '(s1, x) := tbl_set flen fmem dirsize s n' f t1 t2 [] [] in sx_tres x :: run_tbl dirsize s1 r
           else [sx_err "tbl-op"]
       | _, _ => [sx_err "tbl-set"]
       end
@@ -117,7 +128,7 @@ Fixpoint run_tbl (dirsize : Z) (s : tcache) (ops : list sx) : list sx :=
       match sx_get_zs n with
       | Some n' =>
           if is_tag "get" t then
-            let '(s1, x) := tbl_get flen fmem dirsize s n' t1 in sx_tres x :: run_tbl dirsize s1 r
+            let '(s1, x) := tbl_get flen fmem dirsize s n' t1 [] in sx_tres x :: run_tbl dirsize s1 r
           else [sx_err "tbl-op"]
       | None => [sx_err "tbl-get"]
       end
